@@ -236,6 +236,164 @@ async def _iterate(client: Any, T: int, npk: int, loop: Any, events: list[dict[s
     return n, last
 
 
+def _tls_scenario(seed: int) -> dict[str, Any]:
+    """Blocking SSLStreamTransport under StreamEndpoint.recv_packet(timeout): one TLS record that carries the packet reaches the socket
+    in slices at scripted moments of the fake clock (every slice makes the socket readable although no plaintext is available yet:
+    spurious readiness).  The peer is an ssl.SSLObject driven inline by the selector that the transport is given, so the run is
+    single-threaded and deterministic; the handshake goes through the same selector."""
+    import ssl
+
+    from easynetwork.lowlevel.api_sync.endpoints.stream import StreamEndpoint
+    from easynetwork.lowlevel.api_sync.transports.socket import SSLStreamTransport
+    from easynetwork.protocol import StreamProtocol
+    from easynetwork.serializers.line import StringLineSerializer
+
+    from .. import tlspeer
+
+    rng = random.Random(seed)
+    clock = vsync.FakeClock()
+    lib_sock, peer_raw = socket.socketpair()
+    peer_raw.setblocking(False)
+    inc, out = ssl.MemoryBIO(), ssl.MemoryBIO()
+    lib_is_server = rng.random() < 0.5
+    ctx = tlspeer.client_context() if lib_is_server else tlspeer.server_context()
+    obj = ctx.wrap_bio(inc, out, server_side=not lib_is_server, server_hostname="localhost" if lib_is_server else None)
+    state = {"hs_done": False}
+    script: list[list[Any]] = []  # [gap, bytes] slices of ciphertext still to arrive
+    waits: list[dict[str, Any]] = []
+    data_phase = [False]
+
+    def pump_peer() -> None:
+        try:
+            while True:
+                chunk = peer_raw.recv(65536)
+                if not chunk:
+                    break
+                inc.write(chunk)
+        except BlockingIOError:
+            pass
+        if not state["hs_done"]:
+            try:
+                obj.do_handshake()
+                state["hs_done"] = True
+            except (ssl.SSLWantReadError, ssl.SSLWantWriteError):
+                pass
+        data = out.read()
+        if data:
+            peer_raw.sendall(data)
+
+    class WorldSelector(selectors.BaseSelector):
+        def __init__(self) -> None:
+            self._real = selectors.PollSelector()
+            self._keys: dict[Any, selectors.SelectorKey] = {}
+
+        def register(self, fileobj: Any, events: int, data: Any = None) -> selectors.SelectorKey:
+            key = self._real.register(fileobj, events, data)
+            self._keys[fileobj] = key
+            return key
+
+        def unregister(self, fileobj: Any) -> selectors.SelectorKey:
+            self._keys.pop(fileobj, None)
+            return self._real.unregister(fileobj)
+
+        def get_map(self) -> Any:
+            return self._real.get_map()
+
+        def close(self) -> None:
+            self._real.close()
+
+        def select(self, timeout: float | None = None) -> list[tuple[selectors.SelectorKey, int]]:
+            for _ in range(50):
+                pump_peer()
+                ready = self._real.select(0)
+                if ready:
+                    if data_phase[0]:
+                        waits.append({"ev": "wait", "e": 0})
+                    return ready
+                if not data_phase[0]:
+                    continue
+                break
+            if not data_phase[0]:
+                raise RuntimeError("handshake does not progress")
+            if script:
+                gap, piece = script[0]
+                if timeout is None or gap <= timeout:
+                    script.pop(0)
+                    clock.now += gap
+                    peer_raw.sendall(piece)
+                    waits.append({"ev": "wait", "e": int(gap)})
+                    return self._real.select(1.0)
+                script[0][0] = gap - timeout
+            if timeout is None:
+                raise vsync.SpinDetected("nothing more will arrive")
+            clock.now += timeout
+            waits.append({"ev": "wait", "e": int(timeout)})
+            return []
+
+    T = rng.choice([None, 0, 1, 2, 3, 5, 8])
+    ri = rng.choice([math.inf, 1.0, 2.0])
+    problems: list[str] = []
+    ending = "?"
+    tr = None
+    try:
+        with vsync.patched_clock(clock):
+            kw: dict[str, Any] = {"retry_interval": ri, "handshake_timeout": 1000, "shutdown_timeout": 0, "selector_factory": WorldSelector}
+            if lib_is_server:
+                tr = SSLStreamTransport(lib_sock, tlspeer.server_context(), server_side=True, **kw)
+            else:
+                tr = SSLStreamTransport(lib_sock, tlspeer.client_context(), server_hostname="localhost", **kw)
+            for _ in range(5):
+                pump_peer()  # session tickets and the like
+            ep = StreamEndpoint(tr, StreamProtocol(StringLineSerializer()), max_recv_size=rng.choice([16, 1024, 65536]))
+            # the record with the packet, cut in slices
+            obj.write(b"packet-" + b"x" * rng.randint(0, 40) + b"\n")
+            cipher = out.read()
+            cuts = sorted(rng.sample(range(1, len(cipher)), min(len(cipher) - 1, rng.randint(0, 4))))
+            pieces = [cipher[a:b] for a, b in zip([0] + cuts, cuts + [len(cipher)])]
+            for piece in pieces:
+                script.append([rng.choice([0, 1, 1, 2, 3]), piece])
+            data_phase[0] = True
+            t0 = clock.now
+            try:
+                ep.recv_packet(timeout=T)
+                ending = "ok"
+            except TimeoutError:
+                ending = "timeout"
+            except vsync.SpinDetected:
+                ending = "spin"
+            except Exception as exc:  # noqa: BLE001
+                ending = "error:" + type(exc).__name__
+            elapsed = clock.now - t0
+            if T is not None and elapsed > T + 1e-9:
+                problems.append(f"recv_packet(timeout={T}) took {elapsed} on the fake clock")
+    except Exception as exc:  # noqa: BLE001
+        ending = "setup_error:" + type(exc).__name__ + ":" + str(exc)[:60]
+        elapsed = 0
+    finally:
+        data_phase[0] = False
+        for s_ in (lib_sock, peer_raw):
+            try:
+                s_.close()
+            except OSError:
+                pass
+        if tr is not None:
+            try:
+                tr.close()
+            except Exception:  # noqa: BLE001
+                pass
+    events = list(waits)
+    if ending == "ok":
+        events.append({"ev": "deliver"})
+    events.append({"ev": "ret", "kind": ending})
+    if problems:
+        events.append({"ev": "problem"})
+    return {
+        "t": -1 if T is None else T,
+        "events": traces.uniform(events, EVD),
+        "meta": f"SSLStreamTransport+StreamEndpoint.recv timeout={T} retry_interval={ri} role={'server' if lib_is_server else 'client'} seed={seed} ending={ending} elapsed={elapsed} problems={problems}",
+    }
+
+
 def _budget_model(chk: Check) -> bool:
     with tempfile.TemporaryDirectory(prefix="vf_c11_") as d:
         mod = tlc.write_mc_module(d, "MC_Budget", "Budget", {"MCTs": "{0 - 1, 0, 1, 3}", "Bounded": "waited <= 8"})
@@ -288,6 +446,9 @@ def run(chk: Check) -> None:
     # (c) whole client calls
     rec3 = [_client_scenario(chk.seed * 31337 + i) for i in range(1500 if quick else 20000)]
     rec3 += [vloop.run(lambda: _async_iter_scenario(chk.seed * 7 + i)) for i in range(150 if quick else 2000)]
+    rec_tls = [_tls_scenario(chk.seed * 911 + i) for i in range(150 if quick else 2500)]
+    chk.extra["tls_blocking_traces"] = {"traces": len(rec_tls), "endings": {k: sum(1 for t in rec_tls if t["events"][-1]["kind"] == k or (t["events"][-1]["ev"] == "problem" and k == "problem")) for k in ("ok", "timeout", "problem")}}
+    rec3 += rec_tls
     slim3 = [{"t": t["t"], "events": t["events"]} for t in rec3]
     res3 = traces.validate("BudgetTrace", slim3, cfg_text=TRACE_CFG, parallel=8, chunk=1000)
     chk.traces += len(rec3)
@@ -311,7 +472,7 @@ def run(chk: Check) -> None:
     chk.evaluations = chk.traces
     chk.assumptions += [
         "processing time is zero on the fake clock: 'at most T plus bounded processing time' becomes 'at most T'",
-        "TLS blocking transport timeouts are exercised under C08/C09",
+        "the blocking TLS transport is driven through the selector_factory it accepts: the peer is an ssl.SSLObject pumped inline, its record arrives in scripted slices",
     ]
 
 
